@@ -124,6 +124,39 @@ def invariants(db, bases=None, shipped=False):
             notes["types_without_base"] += 1
     if set(seen) != set(db.unit_to_unit_info):
         probs.append(("I1:unit-map-and-type-lists-disagree", {"only_in_map": sorted(set(db.unit_to_unit_info) - set(seen))[:5], "only_in_lists": sorted(set(seen) - set(db.unit_to_unit_info))[:5]}))
+    # which categories exist per quantity type (no object is built here)
+    cats_of = {}
+    for c in list(db.IterCategories()):
+        try:
+            cats_of.setdefault(db.GetCategoryQuantityType(c), []).append(c)
+        except Exception:
+            pass
+    # the unit alone first (before anything names the category explicitly in this evaluation: an explicit request
+    # refreshes the category-less cache entry and would hide a stale one)
+    for u, qt in seen.items():
+        # the unit alone, where the database names a usable default category for it
+        try:
+            dc = db.GetDefaultCategory(u)
+        except Exception as e:
+            probs.append(("I4:GetDefaultCategory-raised:%s" % type(e).__name__, {"unit": u, "error": str(e)[:160]}))
+            continue
+        if dc is not None and dc in cats_of.get(qt, ()):
+            try:
+                s = Scalar(1.0, u)
+                notes["scalars_built"] += 1
+                if s.GetCategory() != dc or s.GetUnit() != u:
+                    probs.append(("I4:Scalar(x,unit)-wrong-category", {"unit": u, "scalar": repr(s), "default_category": dc}))
+                else:
+                    # the value built from the unit alone is governed by the category as registered *now*
+                    ci, seen_ci = db.GetCategoryInfo(dc), s.GetQuantity().GetCategoryInfo()
+                    a = (ci.quantity_type, ci.default_unit, ci.default_value, ci.min_value, ci.max_value, ci.is_min_exclusive, ci.is_max_exclusive)
+                    b = (seen_ci.quantity_type, seen_ci.default_unit, seen_ci.default_value, seen_ci.min_value, seen_ci.max_value, seen_ci.is_min_exclusive, seen_ci.is_max_exclusive)
+                    if a != b:
+                        probs.append(("I4:Scalar(x,unit)-governed-by-another-definition-of-its-category", {"unit": u, "category": dc, "registered": list(a), "seen_by_the_scalar": list(b)}))
+            except Exception as e:
+                probs.append(("I4:Scalar(x,unit)-raised:%s" % type(e).__name__, {"unit": u, "default_category": dc, "error": str(e)[:160]}))
+        elif shipped:
+            probs.append(("I4:shipped-unit-without-usable-default-category", {"unit": u, "qt": qt, "default_category": dc}))
     cats_by_type = {}
     for c in list(db.IterCategories()):
         notes["categories"] += 1
@@ -175,28 +208,15 @@ def invariants(db, bases=None, shipped=False):
                 x = iu[u].frombase(iu[ci.default_unit].tobase(ci.default_value)) if ci.default_unit in seen and seen[ci.default_unit] == qt else 1.0
                 s = Scalar(c, x, u)
                 notes["scalars_built"] += 1
+                sci = s.GetQuantity().GetCategoryInfo()
                 if s.GetUnit() != u or s.GetCategory() != c:
                     probs.append(("I4:Scalar(category,x,unit)-wrong", {"category": c, "unit": u, "scalar": repr(s)}))
+                elif (sci.quantity_type, sci.default_unit, sci.min_value, sci.max_value) != (ci.quantity_type, ci.default_unit, ci.min_value, ci.max_value):
+                    probs.append(("I4:Scalar(category,x,unit)-governed-by-another-definition-of-its-category", {"category": c, "unit": u}))
                 elif ci.min_value is None and ci.max_value is None and not s.IsValid():
                     probs.append(("I4:Scalar-without-limits-invalid", {"category": c, "unit": u}))
             except Exception as e:
                 probs.append(("I4:Scalar(category,x,unit)-raised:%s" % type(e).__name__, {"category": c, "unit": u, "error": str(e)[:160]}))
-        # the unit alone, where the database names a usable default category for it
-        try:
-            dc = db.GetDefaultCategory(u)
-        except Exception as e:
-            probs.append(("I4:GetDefaultCategory-raised:%s" % type(e).__name__, {"unit": u, "error": str(e)[:160]}))
-            continue
-        if dc is not None and dc in cats_by_type.get(qt, ()):
-            try:
-                s = Scalar(1.0, u)
-                notes["scalars_built"] += 1
-                if s.GetCategory() != dc or s.GetUnit() != u:
-                    probs.append(("I4:Scalar(x,unit)-wrong-category", {"unit": u, "scalar": repr(s), "default_category": dc}))
-            except Exception as e:
-                probs.append(("I4:Scalar(x,unit)-raised:%s" % type(e).__name__, {"unit": u, "default_category": dc, "error": str(e)[:160]}))
-        elif shipped:
-            probs.append(("I4:shipped-unit-without-usable-default-category", {"unit": u, "qt": qt, "default_category": dc}))
     return probs, notes
 
 
